@@ -800,8 +800,14 @@ def run(prop, seed, budget, ctx):
         failures += sf; hist["serialization-cases"] = sn
         for f in sf: hist["P:" + f["why"][0]] += 1
         distinct |= sd
+        import passthrough
+        pf, pn, pd, ph = passthrough.run_part(seed, budget)
+        failures += pf; distinct |= pd; sn += pn
+        for k_, v_ in ph.items(): hist[k_] += v_
+        for f in pf: hist["P:" + f["why"][0].split(":")[0]] += 1
         return {"evaluations": len(cases) + sn, "distinct_nontrivial": len(distinct), "rule": RULES[prop] + "; serialization side: values x no_copy x check_type x "
-                "{function, precomputed method} x random PassThroughOptions completed by serialization_default", "samples": samples,
+                "{function, precomputed method} x random PassThroughOptions completed by serialization_default; deserialization pass_through: named classes x plain JSON data "
+                "(valid / broken) and data with instances at named positions x {function, precomputed method} x coerce", "samples": samples,
                 "histograms": dict(hist), "in_scope": in_scope, "correspondence": {"compared_with_model": k_checked, "disagreements": k_bad}, "failures": failures}
     return {"evaluations": len(cases), "distinct_nontrivial": len(distinct), "rule": RULES[prop], "samples": samples,
             "histograms": dict(hist), "in_scope": in_scope,
@@ -813,6 +819,8 @@ def replay(prop, case, ctx):
     if case.get("part") == "deserialize" and "validators" in case:
         import engine_validate
         return engine_validate.replay(prop, case, ctx)
+    if case.get("part") == "deser-pass-through":
+        return {k: case[k] for k in ("py", "named", "coerce", "plain_datum", "datum_with_instances", "why", "info")}
     mod = build_module("\n".join(HEADER + case["src"]), "replay"); ns = dict(vars(mod))
     tp = eval(case["py"], ns)
     class T: pass
